@@ -5,6 +5,7 @@ import (
 	"encoding/hex"
 	"fmt"
 	"os"
+	"runtime"
 	"testing"
 
 	"github.com/bytemare/secp256k1"
@@ -25,6 +26,7 @@ type caseH2C struct {
 	MsgLay gen.Layout `json:"msg_layout"`
 	DstLay gen.Layout `json:"dst_layout"`
 	Grid   bool       `json:"grid,omitempty"` // member of the exhaustive length grid
+	Same   bool       `json:"same,omitempty"` // the message IS the DST: one slice passed in both roles
 }
 
 var (
@@ -57,6 +59,7 @@ func genH2C(fns []string) func(t *rapid.T) caseH2C {
 		msg, dst := genMsgDst(t)
 		c := caseH2C{Fn: rapid.SampledFrom(fns).Draw(t, "fn"), Msg: hex.EncodeToString(msg), Dst: hex.EncodeToString(dst),
 			MsgLay: gen.LayoutGen().Draw(t, "ml"), DstLay: gen.LayoutGen().Draw(t, "dl")}
+		c.Same = gen.Chance(t, "sameSlice", 1, 20)
 		switch gen.Pick(t, "special", 60) {
 		case 57:
 			c.Dst, c.NilDst = "", true
@@ -173,6 +176,10 @@ func runH2C(c caseH2C, o *gen.Obs) error {
 	if c.NilDst {
 		dst = nil
 	}
+	if c.Same && len(dstData) > 0 {
+		msg, msgData = dst, dstData // one slice in both roles
+		o.Class("msg-is-dst")
+	}
 	o.Class("fn:" + c.Fn)
 	o.ClassIf(c.Grid, "length-grid")
 	site := map[string]string{"ro": "HashToGroup", "nu": "EncodeToGroup", "scalar": "HashToScalar"}[c.Fn]
@@ -265,11 +272,12 @@ type h2cStep struct {
 type caseH2CSeq struct {
 	Steps []h2cStep `json:"steps"`
 	Spare int       `json:"spare"` // spare capacity left behind the DST in the shared buffer
+	GC    bool      `json:"gc,omitempty"` // force a garbage collection between the calls (pools and caches are emptied)
 }
 
 func genH2CSeq(fns []string) func(t *rapid.T) caseH2CSeq {
 	return func(t *rapid.T) caseH2CSeq {
-		c := caseH2CSeq{Spare: rapid.SampledFrom([]int{0, 1, 40}).Draw(t, "spare")}
+		c := caseH2CSeq{Spare: rapid.SampledFrom([]int{0, 1, 40}).Draw(t, "spare"), GC: gen.Chance(t, "gc", 1, 8)}
 		n := 2 + gen.Pick(t, "nsteps", 5)
 		dl := rapid.SampledFrom([]int{300, 256, 16, 1000, 255, 49}).Draw(t, "dlen")
 		ml := rapid.IntRange(0, 80).Draw(t, "mlen")
@@ -313,6 +321,9 @@ func runH2CSeq(c caseH2CSeq, o *gen.Obs) error {
 		msgData, dstData := gen.HexBytes(st.Msg), gen.HexBytes(st.Dst)
 		if len(dstData) == 0 {
 			continue
+		}
+		if c.GC && i > 0 {
+			runtime.GC()
 		}
 		copy(dstBuf, dstData) // the caller re-uses its buffers: same backing array, new content
 		copy(msgBuf, msgData)
